@@ -336,6 +336,9 @@ func CheckC14(c *Case, cov *Cov) []*Violation {
 	// interleaved tasks
 	tasks, shared, sc := runInterleaved(&ex, cov)
 	if cov != nil {
+		for _, t := range tasks {
+			cov.AddDigest(core.Hash([]byte(strings.Join(t.results, "\x00"))))
+		}
 		cov.Evaluations++
 		if sc.swtch >= 3 {
 			cov.Distinct[core.Hash(c.Extra)]++
@@ -506,14 +509,15 @@ func init() {
 		Run:   RunC14,
 		Check: CheckC14,
 		Quick: 3000, Thorough: 200000,
-		Rule: "per run (1) one seeded history of 2..12 Aggregate(level)/Aggregated.ToHTML/Snapshot.ToHTML calls on one snapshot built from groups of similar goroutines (so merges really happen), checked after EVERY operation: goroutines deep-equal a freshly parsed twin, result equal to the same operation on a fresh parse; (2) one tasksim case: 2..6 client tasks with scripts of scan/aggregate/render calls on shared and private snapshots and one shared Opts, interleaved by a seeded token scheduler at every intercepted Read/Write and call boundary, every task's results compared with the same script run alone; evaluations = operations checked + interleavings run; distinct_nontrivial = distinct histories of >= 2 operations in which a bucket merged >= 2 goroutines + distinct interleavings with >= 3 task switches; the free-running -race stage (not simulated) is reported under coverage.free_running",
-		Assumptions: []string{"tasksim interleaves at I/O and call boundaries only; memory-access-level races are only sought by the uncontrolled -race stage, which is labelled as not simulated", "the HTML creation-time line is masked"},
-		Real:        []string{"stack.ScanSnapshot", "Snapshot.Aggregate", "Aggregated.ToHTML", "Snapshot.ToHTML"},
-		Stubs:       []string{"task scheduler (token passing, seeded picks)", "io.Reader/io.Writer of every task"},
-		ShrinkBudget:  400,
-		Post:          postC14,
-		WorkerProcs:   "1",
-		SelfTestProcs: []string{"1", "1"},
+		Rule:            "per run (1) one seeded history of 2..12 Aggregate(level)/Aggregated.ToHTML/Snapshot.ToHTML calls on one snapshot built from groups of similar goroutines (so merges really happen), checked after EVERY operation: goroutines deep-equal a freshly parsed twin, result equal to the same operation on a fresh parse; (2) one tasksim case: 2..6 client tasks with scripts of scan/aggregate/render calls on shared and private snapshots and one shared Opts, interleaved by a seeded token scheduler at every intercepted Read/Write and call boundary, every task's results compared with the same script run alone; evaluations = operations checked + interleavings run; distinct_nontrivial = distinct histories of >= 2 operations in which a bucket merged >= 2 goroutines + distinct interleavings with >= 3 task switches; the free-running -race stage (not simulated) is reported under coverage.free_running",
+		Assumptions:     []string{"tasksim interleaves at I/O and call boundaries only; memory-access-level races are only sought by the uncontrolled -race stage, which is labelled as not simulated", "the HTML creation-time line is masked"},
+		Real:            []string{"stack.ScanSnapshot", "Snapshot.Aggregate", "Aggregated.ToHTML", "Snapshot.ToHTML"},
+		Stubs:           []string{"task scheduler (token passing, seeded picks)", "io.Reader/io.Writer of every task"},
+		ShrinkBudget:    400,
+		Post:            postC14,
+		WorkerProcs:     "1",
+		IsolationClause: "C14.history",
+		SelfTestProcs:   []string{"1", "1"},
 	})
 }
 
@@ -594,4 +598,3 @@ func RaceStageC14(seed uint64, rounds int) []*Violation {
 func postC14(seed uint64, tier string, cov *Cov) ([]*Violation, map[string]any, error) {
 	return runRaceStage("C14", seed, tier)
 }
-
